@@ -10,6 +10,8 @@ mod orderv;
 mod parsev;
 mod printv;
 mod proj;
+mod serderec;
+mod serdev;
 mod sweepv;
 mod unordv;
 mod util;
@@ -17,7 +19,11 @@ mod util;
 use util::*;
 
 fn main() {
-	std::panic::set_hook(Box::new(|_| {}));
+	std::panic::set_hook(Box::new(|info| {
+		if std::env::var("JSV_PANIC_TRACE").is_ok() {
+			eprintln!("panic: {info}");
+		}
+	}));
 	let argv: Vec<String> = std::env::args().skip(1).collect();
 	if argv.is_empty() {
 		tool_error("usage: jsv <subcommand> ...");
@@ -34,6 +40,8 @@ fn main() {
 					Some("parse") => parsev::replay_parse(&mut rep, &rec),
 					Some("obj") => objv::replay_obj(&mut rep, &mut ost, &rec),
 					Some("nest") => nestv::replay_nest(&mut rep, &rec),
+					Some("sj") => serdev::replay_sj(&mut rep, &rec),
+					Some("ser") => serdev::replay_ser(&mut rep, &rec),
 					Some("canon") => canonv::replay_canon(&mut rep, &rec),
 					Some("conv") => navv::replay_conv(&mut rep, &rec),
 					Some("print") => printv::replay_print(&mut rep, &rec),
@@ -54,6 +62,7 @@ fn main() {
 		"nest-child" => nestv::child(),
 		"sweep" => sweepv::record(&args),
 		"record-canon" => canonv::record(&args),
+		"record-serde" => serderec::record(&args),
 		"record-parse" => parsev::record(&args),
 		"record-order" => orderv::record(&args),
 		"record-print" => printv::record(&args),
